@@ -21,6 +21,7 @@ import (
 	"encoding/base64"
 	"encoding/json"
 	"encoding/pem"
+	"errors"
 	"fmt"
 	"log/slog"
 	"net/http"
@@ -646,7 +647,15 @@ func (sc *c09Scenario) build(sp c09Spec) *c09Sub {
 		defDesc += fmt.Sprintf("(%d)", sp.arg1%3)
 	case c09DefBadJSON:
 		good := c09Body(chain)
-		switch sp.arg1 % 5 {
+		switch sp.arg1 % 9 {
+		case 5: // a complete, valid request followed by something: not a JSON document any more
+			s.body = append(bytes.Clone(good), '}')
+		case 6:
+			s.body = append(bytes.Clone(good), " trailing garbage"...)
+		case 7: // two concatenated documents
+			s.body = append(bytes.Clone(good), good...)
+		case 8:
+			s.body = append(bytes.Clone(good), "\n{\"chain\":[]}"...)
 		case 0:
 			s.body = good[:len(good)/2]
 		case 1:
@@ -658,7 +667,7 @@ func (sc *c09Scenario) build(sp c09Spec) *c09Sub {
 		case 4:
 			s.body = []byte(`{"chain":[1]}`)
 		}
-		defDesc += fmt.Sprintf("(%d)", sp.arg1%5)
+		defDesc += fmt.Sprintf("(%d)", sp.arg1%9)
 	case c09DefBadBase64:
 		var items []string
 		for _, c := range chain {
@@ -779,6 +788,34 @@ func (sc *c09Scenario) round() {
 		sc.history = append(sc.history, sp)
 	}
 
+	// Sometimes the object store refuses the first uploads of issuer objects during this batch (not applied). The
+	// submissions that needed them may then fail with a server error; every later accepted chain must still find all of
+	// its certificates retrievable.
+	var faultMu sync.Mutex
+	faulted := map[string]bool{} // issuer keys whose upload was refused in this batch
+	if nf := rapid.SampledFrom([]int{0, 0, 0, 0, 1, 2}).Draw(rt, "issuerUploadFaults"); nf > 0 {
+		sc.be.UploadCallback = func(key string, data []byte) (bool, error) {
+			faultMu.Lock()
+			defer faultMu.Unlock()
+			if strings.HasPrefix(key, "issuer/") && len(faulted) < nf && !faulted[key] {
+				faulted[key] = true
+				return false, errors.New("c09: injected issuer upload failure")
+			}
+			return true, nil
+		}
+		defer func() { sc.be.UploadCallback = nil }()
+	}
+	hitByFault := func(s *c09Sub) bool {
+		faultMu.Lock()
+		defer faultMu.Unlock()
+		for _, ca := range s.path {
+			if faulted[fmt.Sprintf("issuer/%x", sha256.Sum256(ca.der))] {
+				return true
+			}
+		}
+		return false
+	}
+
 	ctx, cancel := context.WithCancel(context.Background())
 	var wg sync.WaitGroup
 	var answered atomic.Int32
@@ -829,6 +866,12 @@ func (sc *c09Scenario) round() {
 		what := fmt.Sprintf("[%s] reasons=%v", s.desc, s.reasons)
 		if s.code >= 500 {
 			what += fmt.Sprintf("\n  request: POST /ct/v1/%s %s", c09Endpoints[s.spec.endpoint], c09ClipN(s.body, 6000))
+		}
+		if s.code >= 500 && hitByFault(s) {
+			// the object store refused an issuer of this chain: a server error is the honest answer, and nothing was logged
+			sc.rec.Add("server-errors-after-issuer-upload-fault", 1)
+			s.code = 599
+			continue
 		}
 		switch s.expect {
 		case c09Accept:
